@@ -181,4 +181,62 @@ def grpcSend (max : Nat) (ev : Event) : List Msg :=
 def pipeline (max period : Nat) (evs : List Event) : List Msg :=
   (sample period evs).flatMap (grpcSend max)
 
+/-! ## search/aggregate.go: collectSender and newFlushCollectSender (no display limit)
+
+`newFlushCollectSender(opts, sender)` with `opts.FlushWallTime > 0`: until the flush point (timer or final flush, whichever
+comes first) every result is aggregated by `collectSender` (stats added, files appended); at the flush point the
+aggregate is ranked (`SortAndTruncateFiles`, a permutation when no display limit is set — display limits are C22's
+subject) and sent with `FlushReason` set; afterwards results pass straight through.  The ranking function is a parameter. -/
+
+inductive FOp where
+  | send (e : Event)
+  | timer            -- the FlushWallTime timer fires (a flush point)
+  deriving Repr
+
+structure Collector where
+  collecting : Bool
+  agg : Option Event
+  deriving Repr
+
+def Collector.init : Collector := ⟨true, none⟩
+
+/-- `collectSender.Send` -/
+def collectAdd (agg : Option Event) (e : Event) : Event :=
+  let a := agg.getD Event.empty
+  { stats := a.stats.add e.stats,
+    prog := ⟨Pri.max a.prog.prio e.prog.prio, e.prog.maxp⟩,   -- `if agg.Priority < r.Priority { agg.Priority = r.Priority }`
+    files := a.files ++ e.files }
+
+/-- `stopCollectingAndFlush(reason)` when still collecting: `Done()` then `sender.Send(agg)` -/
+def flushOut (sort : List File → List File) (agg : Option Event) (reason : Nat) : List Event :=
+  match agg with
+  | none => []
+  | some a => [{ a with files := sort a.files, stats := { a.stats with fr := reason } }]
+
+def Collector.step (sort : List File → List File) (c : Collector) : FOp → Collector × List Event
+  | .send e => if c.collecting then (⟨true, some (collectAdd c.agg e)⟩, []) else (c, [e])
+  | .timer => if c.collecting then (⟨false, none⟩, flushOut sort c.agg 1) else (c, [])
+
+def Collector.run (sort : List File → List File) : Collector → List FOp → Collector × List Event
+  | c, [] => (c, [])
+  | c, op :: rest =>
+    let r := c.step sort op
+    let r' := Collector.run sort r.1 rest
+    (r'.1, r.2 ++ r'.2)
+
+/-- the whole life of the sender: the operations, then `finalFlush` (reason 2) -/
+def collect (sort : List File → List File) (ops : List FOp) : List Event :=
+  let r := Collector.run sort Collector.init ops
+  r.2 ++ (if r.1.collecting then flushOut sort r.1.agg 2 else [])
+
+/-- the events handed to the sender by the searcher -/
+def sentEvents : List FOp → List Event
+  | [] => []
+  | .send e :: rest => e :: sentEvents rest
+  | .timer :: rest => sentEvents rest
+
+/-- searcher → flush collector → sampler → chunk sender -/
+def pipelineWithCollector (sort : List File → List File) (max period : Nat) (ops : List FOp) : List Msg :=
+  pipeline max period (collect sort ops)
+
 end ZoektModel.C25
